@@ -273,6 +273,22 @@ using method_t = typename method_from<
     P, N, K,
     params_t<P, K, typename N::sig, sig_classes<typename N::sig>, true>>::type;
 
+} // namespace e2
+
+// The methods of kind `ref` read their slots and strides from static_offsets
+// (the path a program compiled with generated offsets takes), filled from
+// what update installed after every update (Engine::update).
+namespace yorel::yomm2::detail {
+template<class N, class P, class... Ps>
+struct static_offsets<method<e2::key<N, e2::k_ref>, int(Ps...), P>> {
+    static constexpr std::size_t NV = arity<Ps...>;
+    static inline std::size_t slots[NV] = {};
+    static inline std::size_t strides[NV > 1 ? NV - 1 : 1] = {};
+};
+} // namespace yorel::yomm2::detail
+
+namespace e2 {
+
 // Probes: uni-methods with one definition per class, called from inside the
 // definition bodies through the virtual_ptr they received; the definition
 // returns the index of its class.  (Set up per policy by the engine.)
@@ -582,6 +598,54 @@ struct Engine {
         }
     }
 
+    // Pointers to const: a virtual_ptr<const X> / virtual_shared_ptr<const X>
+    // built through final, from the exact static type, through the lookup
+    // route or by make_virtual_shared refers to the same v-table (and object)
+    // as a pointer to the same object built without the const.
+    template<class T, class St, class Dt>
+    static void check_const_twins(
+        const std::uintptr_t* want, Dt& obj, std::string& identity) {
+        const Dt& cobj = obj;
+        auto c1 = virtual_ptr<const Dt, P>::final(cobj);
+        virtual_ptr<const Dt, P> c2(cobj);
+        virtual_ptr<const St, P> c3(static_cast<const St&>(cobj));
+        virtual_ptr<const T, P> c4(c3);
+        if (c1._vptr() != want || c2._vptr() != want || c3._vptr() != want ||
+            c4._vptr() != want) {
+            identity = std::string("a virtual_ptr to a const ") +
+                class_name(index_of<Dt>) +
+                " (final / exact / from base reference / converted) does not "
+                "carry the v-table pointer of its class";
+        } else if (
+            c1.get() != &cobj || c4.get() != static_cast<const T*>(&cobj)) {
+            identity = std::string("get of a virtual_ptr to a const ") +
+                class_name(index_of<Dt>) + " does not give back the object";
+        }
+    }
+
+    template<class St, class Dt>
+    static void check_const_shared_twins(
+        const std::uintptr_t* want, const std::shared_ptr<Dt>& exact,
+        std::string& identity) {
+        auto c1 = VSP<const Dt>::final(std::shared_ptr<const Dt>(exact));
+        VSP<const St> c2{std::shared_ptr<const St>(exact)};
+        const std::shared_ptr<const St> csp = exact;
+        VSP<const St> c3(csp);
+        auto c4 = make_virtual_shared<const Dt, P>();
+        if (c1._vptr() != want || c2._vptr() != want || c3._vptr() != want ||
+            c4._vptr() != want) {
+            identity = std::string("a virtual_shared_ptr to a const ") +
+                class_name(index_of<Dt>) +
+                " (final / rvalue / const lvalue shared_ptr / "
+                "make_virtual_shared) does not carry the v-table pointer of "
+                "its class";
+        } else if (c1.get().get() != exact.get() ||
+                   c3.get().get() != exact.get()) {
+            identity = std::string("a virtual_shared_ptr to a const ") +
+                class_name(index_of<Dt>) + " does not share the object";
+        }
+    }
+
     static constexpr int N_VP_ROUTES = 6;
     static const char* vp_route_name(int r) {
         static const char* n[] = {"from_base_reference", "exact_then_convert",
@@ -670,6 +734,12 @@ struct Engine {
                     std::is_base_of_v<T, St> && std::is_base_of_v<St, Dt>) {
                     result.emplace(this->template vp_route<T, St, Dt>(
                         a.route, identity, a.d));
+                    if (identity.empty()) {
+                        check_const_twins<T, St, Dt>(
+                            result->_vptr(),
+                            *static_cast<Dt*>(objects.most_derived[a.d]),
+                            identity);
+                    }
                 }
             });
         });
@@ -739,6 +809,10 @@ struct Engine {
         }
         }
         check_identity<T>(*result, as_t, identity, "converted to parameter");
+        if (identity.empty()) {
+            check_const_shared_twins<St, Dt>(
+                result->_vptr(), exact, identity);
+        }
         return *result;
     }
 
@@ -1057,6 +1131,12 @@ struct Engine {
         }
     }
 
+    static_assert(
+        detail::has_static_offsets<method_t<P, n_m1, k_ref>>::value &&
+            detail::has_static_offsets<method_t<P, n_m3, k_ref>>::value &&
+            !detail::has_static_offsets<method_t<P, n_m1, k_ptr>>::value,
+        "the ref-kind methods use static offsets");
+
     ErrorSeen update(std::shared_ptr<detail::compiler<P>>* comp = nullptr) {
         return guarded([&] {
             auto c = std::make_shared<detail::compiler<P>>(
@@ -1064,6 +1144,21 @@ struct Engine {
             if (comp) {
                 *comp = c;
             }
+            mp::mp_for_each<mp::mp_transform<mp::mp_identity, method_menu>>(
+                [&](auto tag) {
+                    using NK = typename decltype(tag)::type;
+                    using M = method_t<P, mp::mp_first<NK>, mp::mp_second<NK>>;
+                    if constexpr (detail::has_static_offsets<M>::value) {
+                        using SO = detail::static_offsets<M>;
+                        constexpr std::size_t NV = M::arity;
+                        for (std::size_t i = 0; i < NV; ++i) {
+                            SO::slots[i] = M::fn.slots_strides_ptr[i];
+                        }
+                        for (std::size_t i = 0; i + 1 < NV; ++i) {
+                            SO::strides[i] = M::fn.slots_strides_ptr[NV + i];
+                        }
+                    }
+                });
         });
     }
 
